@@ -215,11 +215,17 @@ Lemma roundtrip_unbounded_plain a : unbounded_on_sheet a -> sheet_ok (a_sheet a)
   create (address a) [] None = Ok (VA a).
 Proof. intros Ha Hs. rewrite address_form. apply (roundtrip_unbounded_form 0 a Ha Hs). discriminate. Qed.
 Lemma roundtrip_unbounded_quoted a : unbounded_on_sheet a -> sheet_ok_quoted (a_sheet a) = true ->
-  create (quoted_address a) [] None = Ok (VA a).
-Proof. intros Ha Hs. rewrite quoted_address_form. apply (roundtrip_unbounded_form 1 a Ha Hs). discriminate. Qed.
+  bind (quoted_address a) (fun t => create t [] None) = Ok (VA a).
+Proof.
+  intros Ha Hs. rewrite (quoted_address_form a (sheet_ok_quoted_decided _ Hs)). cbn [bind].
+  apply (roundtrip_unbounded_form 1 a Ha Hs). discriminate.
+Qed.
 Lemma roundtrip_unbounded_abs a : unbounded_on_sheet a -> abs_form_ok a -> sheet_ok_quoted (a_sheet a) = true ->
-  create (abs_address a) [] None = Ok (VA a).
-Proof. intros Ha Hb Hs. rewrite abs_address_form. apply (roundtrip_unbounded_form 2 a Ha Hs). intros _. exact Hb. Qed.
+  bind (abs_address a) (fun t => create t [] None) = Ok (VA a).
+Proof.
+  intros Ha Hb Hs. rewrite (abs_address_form a (sheet_ok_quoted_decided _ Hs)). cbn [bind].
+  apply (roundtrip_unbounded_form 2 a Ha Hs). intros _. exact Hb.
+Qed.
 
 (* '$A:$C' and '$2:$5' (with any sheet prefix of the quoted form) denote the same ranges *)
 Lemma parse_excel_abs a : unbounded_on_sheet a -> sheet_ok_quoted (a_sheet a) = true ->
@@ -262,8 +268,9 @@ Qed.
 Example ex_unbounded_cols :
   let a := ARange [77; 121; 32; 68; 97; 116; 97] 1 0 3 0 in
   unbounded_on_sheet a /\ abs_form_ok a
-  /\ quoted_address a = [39; 77; 121; 32; 68; 97; 116; 97; 39; 33; 65; 58; 67]
-  /\ create (quoted_address a) [] None = Ok (VA a) /\ create (abs_address a) [] None = Ok (VA a).
+  /\ quoted_address a = Ok [39; 77; 121; 32; 68; 97; 116; 97; 39; 33; 65; 58; 67]
+  /\ bind (quoted_address a) (fun t => create t [] None) = Ok (VA a)
+  /\ bind (abs_address a) (fun t => create t [] None) = Ok (VA a).
 Proof.
   cbn zeta. split; [left; unfold MAX_COL; lia|]. split; [cbn; lia|]. vm_compute. repeat split; reflexivity.
 Qed.
